@@ -158,6 +158,7 @@ cfg["C21"] = {
 }
 
 ops_q = P("VerifReallocOp", "fault=8") + P("VerifRemoveOp", "fault=14") + P("VerifDissociateOp", "fault=12")
+node_ops = P("VerifAddNodeOp", "fault=6") + P("VerifRemoveNodeOp", "fault=6") + P("VerifSetNodeOp", "fault=8")
 ledger_assume = [cal_stubs,
     "abstract ledger world: store = set of workload records with one symbolic scalar resource amount each; resource manager = per-node usage with delta/incr semantics (the real plugin arithmetic is verified in C04/C08 and composed by argument only); engine = set of containers with the amount applied",
     "exactly one fallible model call fails, at a symbolic position among all store/plugin/engine calls the operation makes; every call after the injected fault succeeds (compensating steps succeed)",
@@ -172,9 +173,9 @@ cfg["C10"] = {
 }
 cfg["C11"] = {
     "title": "A failed cluster operation leaves no lasting effect", "design_ref": "DESIGN.md §4 C11",
-    "runs": [{"dir": CAL, "inline_go": True, "quick": ops_q, "thorough": ops_q, "samples": 4}],
-    "bounds": "ReallocResource, RemoveWorkload, DissociateWorkload through the exported API on a ledger of 2 workloads; every position of the single failing step (<=14 positions)",
-    "outside": "create, replace, add-node, remove-node, set-node (not encoded yet); failures of compensating steps; concurrency",
+    "runs": [{"dir": CAL, "inline_go": True, "quick": ops_q + node_ops, "thorough": ops_q + node_ops, "samples": 4}],
+    "bounds": "ReallocResource, RemoveWorkload, DissociateWorkload, AddNode, RemoveNode, SetNode through the exported API on a ledger of 2 workloads / 1 node; every position of the single failing step (<=14 positions)",
+    "outside": "create and replace (goroutine fan-out pipelines, not encoded); failures of compensating steps; concurrency; values returned through the `return v, f()` idiom (evaluation order unspecified by the language, go/ssa and gc differ)",
     "assumptions": ledger_assume,
 }
 
@@ -200,8 +201,8 @@ cfg["C31"] = {
     "title": "Engine settings faithfully enforce allocated resources", "design_ref": "DESIGN.md §4 C31",
     "runs": [{"dir": "engine/docker", "quick": P("VerifResourceSetting", "cores=2,remap=0", "cores=2,remap=1") + P("VerifUpdateResource", "cores=2"),
               "thorough": P("VerifResourceSetting", "cores=2,remap=0", "cores=2,remap=1", "cores=3,remap=0", "cores=3,remap=1") + P("VerifUpdateResource", "cores=2", "cores=3"), "samples": 3}],
-    "bounds": "CPU amounts on the 1/64-core grid in [0,8] cores (exact binary fractions) plus the special values -1 (unlimited) and 0; memory symbolic in [0,2^50]; cpu map = any subset of 2-3 cores with symbolic pieces; NUMA node in {none, 0, 1}; remap flag; update path with a model docker client (Info, ContainerUpdate)",
-    "outside": "decimal CPU amounts off the 1/64 grid (0.29 cores * 100000 truncates to 28999 microseconds: off by one period unit, accepted by the property's tolerance); the create path beyond makeResourceSetting and the Docker API itself",
+    "bounds": "CPU amounts on the 1/4096-core grid in [0,8] cores (exact binary fractions, fine enough for the shares rounding to matter) plus the special values -1 (unlimited) and 0; memory symbolic in [0,2^50]; cpu map = any subset of 2-3 cores with symbolic pieces; NUMA node in {none, 0, 1}; remap flag; update path with a model docker client (Info, ContainerUpdate)",
+    "outside": "decimal CPU amounts off the 1/4096 grid (0.29 cores * 100000 truncates to 28999 microseconds: off by one period unit, accepted by the property's tolerance); the create path beyond makeResourceSetting and the Docker API itself",
     "assumptions": [common_stubs + "; docker client: in-harness model capturing the UpdateConfig; mapstructure.Decode: structural model; math.Modf/Round on grid floats: exact integer formulas"],
 }
 
@@ -238,7 +239,7 @@ meta = {
     "C16": "wal.Hydro.Log/Recover/recover/decodeEvent run from real SSA over a model KV; operation sequences and all handler outcomes are symbolic; z3-decided paths prove handlers run only for logged-and-uncommitted events, in logging order, at most once per recovery, removal iff handled or unnecessary, ids strictly increasing.",
     "C29": "rpc.toSendLargeFileChunks is executed on a content slice whose LENGTH is a symbolic integer; z3 proves for every length in range that the chunks are consecutive, non-empty, at most 2048 bytes, cover [0,L) exactly and carry size/targets/owner/mode.",
     "C36": "interceptor.NewStreamRetry and retryStream.{SendMsg,RecvMsg,getStream,setStream} are executed against model streams with symbolic per-call outcomes; z3-decided paths prove raw stream for unlisted methods, re-send of the original request on the reopened stream, messages from the newest stream, reopen attempts within Max+1, no retry after context.Canceled.",
-    "C31": "docker.makeResourceSetting and (*Engine).VirtualizationUpdateResource are executed with symbolic CPU (1/64 grid), memory, cpu map and NUMA node; z3 proves cpuset = exactly the allocated cores, cpuset-mems = NUMA node, quota -1 when bound, shares = round(1024*frac), quota = cpu*period when unbound, memory caps.",
+    "C31": "docker.makeResourceSetting and (*Engine).VirtualizationUpdateResource are executed with symbolic CPU (1/4096 grid), memory, cpu map and NUMA node; z3 proves cpuset = exactly the allocated cores, cpuset-mems = NUMA node, quota -1 when bound, shares = round(1024*frac), quota = cpu*period when unbound, memory caps.",
     "C17": "utils.Txn and utils.PCR are executed for every outcome vector and caller-cancellation point (symbolic Booleans / choices, complete finite space); z3 decides each branch; assertions: then iff cond ok, rollback exactly once iff a step failed with the right flag, first failure returned, rollback context not cancelled by the caller.",
     "C20": "The lock wrappers (withNodesPodLocked, withNodeOperationLocked, withWorkloadsLocked) and the sequential ReallocResource are executed over symbolic include/id lists and pod assignments with recording locks; the acquisition trace must be strictly ascending within pod locks and within workload locks, pod before workload, and everything released.",
     "C21": "Calcium.filterNodes (with the real utils.Map/sort code) is executed over symbolic include/exclude lists and store orders; the result must contain exactly the wanted distinct nodes, each once.",
